@@ -611,6 +611,9 @@ impl Evidence {
         );
         self.subs.push(st);
     }
+    pub fn has_violations(&self) -> bool {
+        self.subs.iter().any(|s| !s.violations.is_empty())
+    }
     pub fn inconclusive(&mut self, why: impl Into<String>) {
         self.inconclusive.push(why.into());
     }
@@ -854,6 +857,26 @@ pub mod hang {
         r
     }
 
+    /// Like `start_monitor`, but a non-returning call is reported as *inconclusive*
+    /// (exit 2): for engines whose property does not include termination.
+    pub fn start_monitor_inconclusive(property: &str, limit: Duration) {
+        let property = property.to_string();
+        let _ = now_ms();
+        std::thread::spawn(move || loop {
+            std::thread::sleep(Duration::from_millis(200));
+            let now = now_ms();
+            let slots: Vec<Arc<Slot>> = SLOTS.lock().unwrap().clone();
+            for s in slots {
+                let since = s.since_ms.load(Ordering::SeqCst);
+                if since != 0 && now.saturating_sub(since) > limit.as_millis() as u64 {
+                    let (sub, sig, case) = s.case.lock().unwrap().clone();
+                    eprintln!("[{property}] INCONCLUSIVE: a call did not return within {limit:?} in sub {sub} ({sig}); termination is another property's business. case: {case}");
+                    std::process::exit(2);
+                }
+            }
+        });
+    }
+
     pub fn start_monitor(property: &str, tier: Tier, seed: u64, limit: Duration) {
         let property = property.to_string();
         let _ = now_ms();
@@ -890,4 +913,36 @@ pub mod hang {
             }
         });
     }
+}
+
+/// Regression seeds: shrunk failing cases of defects that were repaired (or hand-written
+/// minimal cases), kept under /verif/regress/<property>/*.json and executed first in
+/// every run through the engine's replay interpreter (bypassing the generators).
+pub fn run_regress(property: &str, exec: impl Fn(&str, Value) -> Outcome) -> Stats {
+    let dir = verif_dir().join("regress").join(property);
+    let mut files: Vec<PathBuf> = std::fs::read_dir(&dir)
+        .map(|d| d.filter_map(|e| e.ok().map(|e| e.path())).filter(|p| p.extension().is_some_and(|x| x == "json")).collect())
+        .unwrap_or_default();
+    files.sort();
+    let cases: Vec<(String, String, Value)> = files
+        .iter()
+        .map(|p| {
+            let (_, sub, case) = load_replay(p);
+            (p.file_name().unwrap().to_string_lossy().into_owned(), sub, case)
+        })
+        .collect();
+    let cfg = RunCfg {
+        property,
+        sub: "regress",
+        rule: "saved shrunk cases of repaired defects, replayed without the generators; each counts as non-trivial",
+        seed: 0,
+        cases: 0,
+        shards: 1,
+        max_shrink_iters: 0,
+    };
+    run_list(&cfg, cases, |(_, sub, case)| {
+        let mut o = exec(sub, case.clone());
+        o.nontrivial = true;
+        o
+    })
 }
